@@ -383,6 +383,11 @@ fn macro_move_phase(thorough: bool, c16: bool) -> Phase {
     let mut cfgs: Vec<(Vec<f64>, Vec<usize>, usize)> = (if thorough { vec![mk(5), mk(13), mk(20), mk(36), mk(70), mk(130)] } else { vec![mk(5), mk(13), mk(36), mk(70)] }).into_iter().map(|(e, p)| (e, p, base_depth)).collect();
     cfgs.push(mk8(13));
     cfgs.push(mk8(20));
+    // very long monotone runs: two moves on 300 (1030 thorough) pieces
+    cfgs.push((iota(300), vec![0, 1, 150, 299, 300], 2));
+    if thorough {
+        cfgs.push((iota(1030), vec![0, 1, 515, 1029, 1030], 2));
+    }
     if thorough {
         cfgs.push(mk8(36));
     }
@@ -404,9 +409,10 @@ fn macro_move_phase(thorough: bool, c16: bool) -> Phase {
             let mut cur: usize = 0;
             let mut started = false;
             for _ in 0..d {
-                // move kinds: 0 jump, 1 sweep (cell by cell), 2 jump to the end value itself (exact breakpoint), C16: 3 = NaN query
-                let kind = cx.choose(if c16 { 4 } else { 3 });
-                if kind == 3 {
+                // move kinds: 0 jump, 1 sweep (cell by cell), 2 jump to the end value itself (exact breakpoint),
+                // 3 / 4 sweep with stride 2 / 3 (regular sampling), C16: 5 = NaN query
+                let kind = cx.choose(if c16 { 6 } else { 5 });
+                if kind == 5 {
                     hist.push(f64::NAN);
                     continue;
                 }
@@ -421,6 +427,14 @@ fn macro_move_phase(thorough: bool, c16: bool) -> Phase {
                     2 => {
                         cur = target;
                         hist.push(if target == 0 { f64::NEG_INFINITY } else { u.ends[target - 1] });
+                    }
+                    3 | 4 if started => {
+                        let s = kind - 1; // stride 2 or 3
+                        while cur != target {
+                            let d = if target > cur { (target - cur).min(s) as isize } else { -((cur - target).min(s) as isize) };
+                            cur = (cur as isize + d) as usize;
+                            hist.push(point(cur));
+                        }
                     }
                     _ => {
                         cur = target;
@@ -456,7 +470,7 @@ fn macro_move_phase(thorough: bool, c16: bool) -> Phase {
         }),
         classes: vec![],
         bounds: json!({"functions": if thorough {"1..n for n = 5, 13, 20, 36, 70, 130"} else {"1..n for n = 5, 13, 36, 70"},
-            "moves": "jump to a cell / sweep cell by cell to a cell (one query per segment) / query exactly the breakpoint that starts a cell (C16: / a NaN query); targets: every cell for n <= 14, else {0,1,2,n/2-1,n/2,n/2+1,n-3,n-2,n-1,n}",
+            "moves": "jump to a cell / sweep cell by cell to a cell (one query per segment) / sweep with stride 2 or 3 / query exactly the breakpoint that starts a cell (C16: / a NaN query); targets: every cell for n <= 14, else {0,1,2,n/2-1,n/2,n/2+1,n-3,n-2,n-1,n}",
             "histories": format!("every sequence of <= {depth} moves (histories of up to ~{} queries); on 13 and 20 (36 thorough) pieces also every sequence of <= {} moves over the targets {{0,1,n/2,n-4,n-3,n-2,n-1,n}}", depth * 130, depth + 1)}),
     }
 }
